@@ -58,6 +58,32 @@ theorem decode_eq_spec (o : Opts) (s : Str) : (decode o s).listing = scan o s :=
 theorem listing_injective (f g : Forest) (h : listingF 0 f = listingF 0 g) : f = g := by
   rw [← rebuild_listing f, ← rebuild_listing g, h]
 
+/-- **Descendants.** In a preorder listing, the descendants of a node at level `n` are exactly
+    the maximal block of deeper entries that follows its entry (up to the next entry at level
+    `≤ n`) … -/
+theorem descendants_are_following_block (lvl : Nat) (t v p : Str) (ks : List Node) (rest : List Entry)
+    (hrest : ∀ e, rest.head? = some e → e.level ≤ lvl) :
+    ((listingT lvl (.mk t v p ks) ++ rest).tail).takeWhile (fun e => decide (lvl < e.level)) =
+      listingF (lvl + 1) ks := by
+  have : (listingT lvl (.mk t v p ks) ++ rest).tail = listingF (lvl + 1) ks ++ rest := by
+    simp [listingT]
+  rw [this]
+  refine (takeWhile_append_stop _ _ _ ?_ ?_).1
+  · intro e he
+    have := listingF_levels_ge (lvl + 1) ks e he
+    simp; omega
+  · intro e he
+    have := hrest e he
+    simp; omega
+
+/-- … and its children are exactly the entries of level `n+1` in that block, in file order:
+    a node at level `n+1` is a child of the nearest preceding node at level `n`, and becomes its
+    last child so far. -/
+theorem children_are_next_level_entries (lvl : Nat) (ks : List Node) :
+    (listingF (lvl + 1) ks).filter (fun e => e.level == lvl + 1) =
+      ks.map (fun k => ⟨lvl + 1, ⟨k.tag, k.value, k.ptr⟩⟩) :=
+  listingF_roots (lvl + 1) ks
+
 /-- on success, the document *is* the forest rebuilt from the reference's listing -/
 theorem decode_is_rebuilt_reference (o : Opts) (s : Str) (d : Doc) (h : decode o s = .ok d) :
     ∃ l, scan o s = .ok d.hasBOM l ∧ d.nodes = rebuild l := by
